@@ -28,11 +28,11 @@ type Policy struct {
 }
 type Naming struct{ Oid, Url, Text string }
 type ProfInfo struct {
-	Naming    *Naming
-	Items     []string
-	Oids      []string
-	RegNum    string
-	AddInfo   string
+	Naming  *Naming
+	Items   []string
+	Oids    []string
+	RegNum  string
+	AddInfo string
 }
 type Admissions struct {
 	Auth   *[2]string
@@ -548,7 +548,9 @@ func (e Ext) Coq() string {
 	panic("kind " + e.Kind)
 }
 
-func (v Validity) Coq() string { return "(mkVal " + cqB(v.From) + " " + cqB(v.Until) + " " + cqB(v.Duration) + ")" }
+func (v Validity) Coq() string {
+	return "(mkVal " + cqB(v.From) + " " + cqB(v.Until) + " " + cqB(v.Duration) + ")"
+}
 
 func (m Manip) Coq() string {
 	v := "None"
@@ -569,7 +571,9 @@ func (p *Profile) Coq() string {
 	}
 	return "(Some (mkProfile " + p.Validity.Coq() + " " + cqBool(p.AllowOther) + " " +
 		cqOptList(p.HasAttrs, p.Attrs, func(a PAttr) string { return "(" + cqB(a.Name) + ", " + cqBool(a.Optional) + ")" }) + " " +
-		cqList(p.Exts, func(e PExt) string { return "(mkPext _ " + e.Ext.Coq() + " " + cqBool(e.Optional) + " " + cqBool(e.Override) + ")" }) + "))"
+		cqList(p.Exts, func(e PExt) string {
+			return "(mkPext _ " + e.Ext.Coq() + " " + cqBool(e.Optional) + " " + cqBool(e.Override) + ")"
+		}) + "))"
 }
 
 func sortedKeys[V any](m map[string]V) []string {
